@@ -519,7 +519,7 @@ pub const OTHER: &[&str] = &[
     "ReduceLogSumExp", "ReduceSumSquare", "ArgMax", "ArgMin", "CumSum", "TopK", "Trilu", "DepthToSpace", "OneHot",
     "NonZero", "Einsum", "Shape", "Size", "Range", "EyeLike", "ReverseSequence", "MatMulInteger",
     "DequantizeLinear", "QuantizeLinear", "DynamicQuantizeLinear", "GeluMs", "QuickGelu", "BiasGelu", "FastGelu",
-    "SequenceInsert", "SequenceErase", "GridSample", "Dropout", "ConstantOfShape", "FusedSilu", "FusedAddSoftmax", "GRU", "LSTM", "Attention", "MatMulWide", "GemmWide", "MatMulIntegerWide", "EinsumWide", "ConvWide",
+    "SequenceInsert", "SequenceErase", "GridSample", "Dropout", "ConstantOfShape", "FusedSilu", "FusedAddSoftmax", "GRU", "LSTM", "Attention", "ConvInteger", "Upsample", "Scatter", "SimplifiedLayerNormalization", "SkipLayerNormalization", "MatMulWide", "GemmWide", "MatMulIntegerWide", "EinsumWide", "ConvWide",
 ];
 
 pub fn all_names() -> Vec<&'static str> {
@@ -1200,6 +1200,42 @@ pub fn gen(name: &'static str, rng: &mut Rng) -> Option<Case> {
         "ConstantOfShape" => {
             let sh = rshape(rng, 3, 0);
             Case::new(name, vec![Some(ivec(&sh.iter().map(|&x| x as i64).collect::<Vec<_>>()))]).data(&[])
+        }
+        "ConvInteger" => {
+            let (ci, co, h, w) = (1 + rng.usize_below(3), 1 + rng.usize_below(3), 3 + rng.usize_below(4), 3 + rng.usize_below(4));
+            let k = 1 + rng.usize_below(2);
+            Case::new(name, vec![Some(tu8(rng, &[1, ci, h, w])), Some(ti8(rng, &[co, ci, k, k]))])
+        }
+        "Upsample" => {
+            let sh = rshape_nz(rng, 4, 4);
+            let sc: Vec<f32> = vec![1.0, 1.0, *rng.pick(&[1.0f32, 2.0, 3.0]), *rng.pick(&[1.0f32, 2.0])];
+            Case::new(name, vec![Some(tfm(rng, &sh)), Some(Tensor::from_data(&[4], sc).into())])
+                .attr("mode", s(*rng.pick(&["nearest", "linear"])))
+                .data(&[0])
+        }
+        "Scatter" => {
+            let sh = rshape_nz(rng, 3, 1);
+            let ax = axis_of(rng, sh.len());
+            let axu = if ax < 0 { (ax + sh.len() as i64) as usize } else { ax as usize };
+            let mut ish = sh.clone();
+            ish[axu] = 1;
+            let n = sh[axu] as i64;
+            let x = tany(rng, &sh);
+            let u = like(rng, &x, &ish);
+            Case::new(name, vec![Some(x), Some(tism(rng, &ish, 0, n - 1)), Some(u)]).attr("axis", Attr::Int(ax))
+        }
+        "SimplifiedLayerNormalization" => {
+            let sh = rshape_nz(rng, 4, 1);
+            let nsh = vec![*sh.last().unwrap()];
+            Case::new(name, vec![Some(tfm(rng, &sh)), Some(tfm(rng, &nsh))]).attr("axis", Attr::Int(-1))
+        }
+        "SkipLayerNormalization" => {
+            let sh = rshape_nz(rng, 3, 3);
+            let nsh = vec![*sh.last().unwrap()];
+            let beta = rng.chance(1, 2).then(|| tfm(rng, &nsh));
+            Case::new(name, vec![Some(tfm(rng, &sh)), Some(tfm(rng, &sh)), Some(tfm(rng, &nsh)), beta])
+                .dom("com.microsoft")
+                .attr("epsilon", Attr::Float(1e-5))
         }
         "GRU" | "LSTM" => {
             let gates = if name == "GRU" { 3 } else { 4 };
